@@ -18,6 +18,8 @@ import (
 	"os"
 	"os/exec"
 	"path/filepath"
+	"runtime/debug"
+	"runtime/pprof"
 	"sort"
 	"strconv"
 	"strings"
@@ -62,7 +64,15 @@ type controlResult struct {
 }
 
 func main() {
+	debug.SetGCPercent(200)
 	flag.Parse()
+	if pf := os.Getenv("VERIF_CPUPROFILE"); pf != "" {
+		f, err := os.Create(pf)
+		if err == nil {
+			_ = pprof.StartCPUProfile(f)
+			defer pprof.StopCPUProfile()
+		}
+	}
 	if *flagReplay != "" {
 		os.Exit(runReplay(*flagReplay))
 	}
@@ -107,7 +117,9 @@ func main() {
 	case "control":
 		os.Exit(runControlMode())
 	case "check":
-		os.Exit(runCheck())
+		rc := runCheck()
+		pprof.StopCPUProfile()
+		os.Exit(rc)
 	default:
 		fmt.Fprintln(os.Stderr, "unknown mode")
 		os.Exit(2)
